@@ -306,7 +306,12 @@ class WebSocket:
             #   However, it is erroneously reported as missing on CPython 3.11.
             response['reason'] = reason
 
-        await self._asgi_send(response)
+        # NOTE: Send via _send() so that a server error is translated in the
+        #   same way as for any other outgoing event: if the server signals
+        #   that the connection is already lost, the WebSocket is marked as
+        #   closed (and WebSocketDisconnected is raised) instead of leaving it
+        #   open for a second close attempt.
+        await self._send(response)
 
         self._state = _WebSocketState.CLOSED
         self._close_code = code
